@@ -62,6 +62,8 @@ func (s *modesSuite) gen(r *rand.Rand, step int) string {
 		}
 		s.plan = []string{"reopen 0", "reopen 1", "reopen 2"}
 		r.Shuffle(3, func(i, j int) { s.plan[i], s.plan[j] = s.plan[j], s.plan[i] })
+		// ... and once with an Options literal that names the directory and the mode only (every other field zero)
+		s.plan = append(s.plan, fmt.Sprintf("reopen %d lit", r.Intn(3)))
 		return fmt.Sprintf("mk %d %s %d", created, st, 1+r.Intn(40))
 	}
 	if step-1 < len(s.plan) {
@@ -255,7 +257,11 @@ func (s *modesSuite) exec(line string) string {
 			return "err-copy"
 		}
 		before := treeDigest(cp)
-		db, err := nutsdb.Open(modeOpts(mode, cp))
+		opts := modeOpts(mode, cp)
+		if len(f) > 2 && f[2] == "lit" {
+			opts = nutsdb.Options{Dir: cp, EntryIdxMode: nutsdb.EntryIdxMode(mode)}
+		}
+		db, err := nutsdb.Open(opts)
 		if err != nil {
 			if os.Getenv("VERIF_PANIC_TRACE") != "" {
 				fmt.Fprintln(os.Stderr, "reopen error:", err)
